@@ -311,11 +311,17 @@ def gen_tseq(rng, nt, length):
     lines = ["N %d" % nt]
     now = 1000
     st = {}   # id -> dict(after, dead, reg)
+    marks = []   # (target, deadline) pairs handed to the library: `now` is aimed at / between them
     def values(after=False):
+        v = values0(after)
+        if v[0] < I63:
+            marks.append((v[0], v[1]))
+        return v
+    def values0(after=False):
         tg = rng.choice([now + rng.range(-30, 120), now, now + 1, now - 1, I63, I63 - 1, I63 + 5, rng.range(1, now + 500)])
         tg = max(1, tg)
         itv = UINT64_MAX if after else rng.choice(ITVS)
-        lee = rng.choice([0, 1, 5, 50, (itv // 2) if itv < I63 else 7])
+        lee = rng.choice([0, 1, 5, 50, 120, (itv // 2) if itv < I63 else 7])
         dl = min(tg + lee, I63) if not after else (tg + lee) % U64
         return tg, dl, itv
     def create(t):
@@ -343,7 +349,12 @@ def gen_tseq(rng, nt, length):
             continue
         after = st[t]["after"]
         if k < 30:
-            now += rng.choice([0, 1, 3, 10, 50, 200])
+            ahead = [m for m in marks if m[1] >= now and m[0] <= now + 300]
+            if ahead and rng.chance(2, 3):
+                m = rng.choice(ahead)      # exactly at the target, between target and deadline, at the deadline, one before
+                now = max(now, rng.choice([m[0], m[0] - 1, m[1], (m[0] + m[1]) // 2, m[0] + 1]))
+            else:
+                now += rng.choice([0, 1, 3, 10, 50, 200])
             lines.append("R %d %d" % (rng.below(3), now))
         elif k < 45:
             lines.append("P %d %d" % (rng.below(3), now))
@@ -554,6 +565,7 @@ def correspond(ctx):
     # 4. the state machine: run / program / configure / resume / unregister / latch
     nseq = 12 if quick else 300
     nstate = 0
+    nfires = narm = ndel = 0
     for si in range(nseq):
         nt = rng.choice([3, 5, 8, 20])
         lines = gen_tseq(rng, nt, rng.choice([40, 120, 300]))
@@ -565,6 +577,11 @@ def correspond(ctx):
             mism.append({"what": "state machine: different number of answers", "detail": {"impl": len(out), "model": len(mout)}})
             continue
         cmds = [l for l in lines if l[0] in "RPSl"]
+        for l in out:
+            if l.startswith("E"):
+                nfires += len(l.split("#")[0].split()) - 1 + (1 if len(l.split("#")[0]) > 1 and l[1] != " " else 0)
+            elif l.startswith("P"):
+                narm += l.count("arm:"); ndel += l.count("del:")
         for i, (l, m) in enumerate(zip(out, mout)):
             mi = [int(x) for x in m.split()]
             li = impl_line_to_list(l, nt)
@@ -587,6 +604,9 @@ def correspond(ctx):
     evals += nstate
     dist["state_machine_sequences"] = nseq
     dist["state_machine_answers_compared"] = nstate
+    dist["state_machine_fire_events"] = nfires
+    dist["state_machine_kernel_arm_calls"] = narm
+    dist["state_machine_kernel_delete_calls"] = ndel
     # dedupe failures by key
     seen, uf = set(), []
     for f in fails:
